@@ -360,6 +360,61 @@ theorem cyclic_witnesses_rejected (fuel : Nat) :
   rw [h2.1, h2.2]
   simp [cycItem, forM, seq]
 
+/-! ## The cost of the requirement check (repair ba4278d): "never … a hang"
+
+`build_terminates` speaks about termination, not about cost: the chain-length `check_chain` the model
+mirrored until ba4278d terminates on every graph and still does not return in practice on a model of
+64 decisions, because it walks every *path*.  The cost model counts calls. -/
+
+/-- `layers` layers of two decisions `2l`, `2l+1`; both require both decisions of the next layer (the
+generator `gen_diamond_decisions` of `harness/src/c12.rs`). -/
+def diamondDefs (layers : Nat) : Defs :=
+  ⟨[], [], [],
+   (List.range (2 * layers)).map (fun id =>
+     ⟨id, none, [], if id / 2 + 1 < layers then [⟨some (2 * (id / 2 + 1)), none⟩, ⟨some (2 * (id / 2 + 1) + 1), none⟩] else []⟩),
+   []⟩
+
+/-- The requirement map of `diamondDefs` is the abstract diamond graph (checked here for four layers and
+the identifiers around them; both are defined by the same arithmetic). -/
+example : ∀ id ∈ List.range 12, reqsOf (diamondDefs 4) id = ReqDfs.diamond 4 id := by decide
+
+/-- **The repaired `check_requirements` gives the answer of the chain-length check it replaced**, for every
+definitions value: every theorem above that mentions `build` (which uses the repaired check) was proved
+about the old one and carries over. -/
+theorem check_chain_same_answer (d : Defs) : reqCheck d = reqCheckChains d := reqCheck_eq_chains d
+
+/-- **The repaired `check_chain` expands every element at most once**: for every definitions value — cyclic
+or not, accepted or not — the number of calls that get past the `checked` / `chain` tests is at most
+`requirements.len()`, the number of different identifiers of decisions, knowledge models and decision
+services.  (Every call is either such an expansion or one of the `required.len()` calls made by one, so the
+number of calls is at most the number of elements plus the number of requirements.) -/
+theorem check_chain_linear (d : Defs) : ReqDfs.dfsExpansions (reqsOf d) (allIds d) ≤ nodeCount d :=
+  ReqDfs.dfsExpansions_le (reqsOf d) (allIds d) (reqsOf_key d) (nodeCount d) (nodeCount_bound d)
+
+/-- … and the recursion is no deeper than the number of elements: the search never runs out of the fuel
+`(allIds d).length` that `reqCheck` gives it (the `none` of the model is not an answer of the code). -/
+theorem check_chain_fuel_suffices (d : Defs) :
+    (ReqDfs.checkAll (reqsOf d) (allIds d).length (allIds d)).isSome = true :=
+  ReqDfs.checkAll_isSome (reqsOf d) (allIds d) (reqsOf_key d)
+
+-- FULL STATEMENT for the check as it was before ba4278d (not provable of that code, finding F62a, repaired):
+--   ∃ c, ∀ d, checkVisits (reqsOf d) (allIds d) (nodeCount d) ≤ c * (number of elements + requirements of d)
+/-- **The chain-length `check_chain` (before ba4278d) makes at least `2 ^ layers` calls on the diamond** of
+`2 * layers` decisions with `4 * (layers - 1)` requirements: the witness of F62a (20 layers: a second;
+32 layers: no answer). `ReqDfs.checkVisits` counts the calls of the old `check_chain` on a graph that
+passes the check (no call is cut short). -/
+theorem check_chain_exponential_counterexample (layers : Nat) (hl : 1 ≤ layers) :
+    2 ^ layers ≤ ReqDfs.checkVisits (ReqDfs.diamond layers) (ReqDfs.diamondKeys layers) (2 * layers) :=
+  ReqDfs.diamond_visits layers hl (2 * layers) (by omega)
+
+/-- On the diamond of 3 layers: the old check makes 22 calls (`2 * (7 + 3 + 1)`), the repaired one expands
+6 elements, both accept and the model builds; through the definitions value of the harness family. -/
+example : ReqDfs.checkVisits (reqsOf (diamondDefs 3)) (allIds (diamondDefs 3)) (nodeCount (diamondDefs 3)) = 22 ∧
+    ReqDfs.dfsExpansions (reqsOf (diamondDefs 3)) (allIds (diamondDefs 3)) = 6 := by decide +kernel
+
+example : reqCheck (diamondDefs 3) = true ∧ reqCheckChains (diamondDefs 3) = true ∧ build (diamondDefs 3) 6 = .ok := by
+  decide +kernel
+
 end Dmn.MB
 
 /-! # The XML layer: `model/src/model/parser.rs` over the abstract tree -/
